@@ -75,13 +75,13 @@ class DoesNotTerminate(Exception):
 
 class StepBudget(dict):
     """The interpreter's opcode dispatch table, counting dispatches: a deterministic
-    guard against expansions that never end (generated cases need < 10^5 steps)."""
-    left = 2_000_000
+    guard against expansions that never end (generated cases need fewer than 10^4 steps)."""
+    left = 200_000
 
     def __getitem__(self, op):
         self.left -= 1
         if self.left < 0:
-            raise DoesNotTerminate("more than 2,000,000 interpreter steps")
+            raise DoesNotTerminate("more than 200,000 interpreter steps")
         return dict.__getitem__(self, op)
 
 
